@@ -631,7 +631,11 @@ where
                     // outside the box too and equals the raw input up to the insertion perturbation
                     // (<= (j+1) 1e-8 x distance to the nearest vertex <= 1e-6 x (|input| + box))
                     let mag = p.iter().fold(maxl.max(1.0), |a, x| a.max(x.abs()));
-                    let unwrapped_axis = (0..D).find(|&j| !in_box(p[j], domain[j]) && !in_box(sv.p[j], domain[j]) && (sv.p[j] - p[j]).abs() <= 1e-6 * mag);
+                    // the input must be outside the box by clearly more than the perturbation,
+                    // otherwise "stored = wrapped image pushed out by the perturbation" (reported
+                    // as outside-box/perturbed) cannot be told apart from "never wrapped"
+                    let dist_out = |x: f64, l: f64| if x < 0.0 { -x } else if x >= l { x - l } else { 0.0 };
+                    let unwrapped_axis = (0..D).find(|&j| dist_out(p[j], domain[j]) > 4e-6 * mag && !in_box(sv.p[j], domain[j]) && (sv.p[j] - p[j]).abs() <= 1e-6 * mag);
                     let all_in = if let Some(j) = unwrapped_axis {
                         let identical = (0..D).all(|a| sv.p[a].to_bits() == p[a].to_bits());
                         rep.out.count(if identical { "insert/not_wrapped/bit_identical" } else { "insert/not_wrapped/perturbed" });
@@ -878,6 +882,7 @@ where
 
     // (d) vertex set
     {
+        let seen_before = rep.seen.len();
         let by_uuid = judge_identity(&mut rep, "periodic", &m, &inp);
         // distinctness of the inputs modulo the periods (toroidal separation > 1e-6 L per point pair)
         let rems: Vec<Option<[f64; D]>> = inp
@@ -923,19 +928,16 @@ where
             rep.out.count("periodic/all_inputs_present");
         }
         // coordinates: wrapped inputs up to the documented 2^20 grid units of 2^-52 L
-        let mut bad_before = rep.seen.len();
         for vx in &m.verts {
             let Some(&i) = by_uuid.get(&vx.uuid) else { continue };
             let maxl = domain.iter().cloned().fold(0.0, f64::max);
             // the periodic builder moves every canonical point by at most 2^20 units of 2^-52 L
             let grid = (1048576.0 + 4.0) * 2f64.powi(-52) * maxl;
-            let (_, _) = judge_point(&mut rep, "periodic", &domain, &inp[i].p, &vx.p, grid.max(1e-7 * maxl.max(1.0)), "perturbed");
+            judge_point(&mut rep, "periodic", &domain, &inp[i].p, &vx.p, grid.max(1e-7 * maxl.max(1.0)), "perturbed");
         }
-        if rep.seen.len() != bad_before {
+        if rep.seen.len() != seen_before {
             ok_all = false;
         }
-        bad_before = rep.seen.len();
-        let _ = bad_before;
     }
 
     // (e) the library's own Level 2 verdict (evidence only)
